@@ -611,6 +611,8 @@ func validArg(t reflect.Type) (reflect.Value, bool) {
 	return reflect.Value{}, false
 }
 
+var zeroScalars bool
+
 func uninitMatrix() {
 	pt := reflect.TypeOf((*Point)(nil))
 	var unclassified []string
@@ -675,6 +677,34 @@ func uninitMatrix() {
 			default:
 				in[zero] = reflect.ValueOf(new(Point))
 			}
+			if zero >= 500 && zero < 700 { // a list of ONE element: the uninitialised point (600+: paired with a zero scalar)
+				a := zero - 500
+				if zero >= 600 {
+					a = zero - 600
+				}
+				in[a] = reflect.ValueOf([]*Point{new(Point)})
+				for b := 1; b < len(in); b++ {
+					if _, ok := in[b].Interface().([]*Scalar); ok {
+						sc := lib.MkSC(big.NewInt(5))
+						if zero >= 600 {
+							sc = secp256k1.NewScalar()
+						}
+						in[b] = reflect.ValueOf([]*Scalar{sc})
+					}
+				}
+			}
+			if zeroScalars { // every scalar operand is zero: "nothing to compute" must not mean "nothing to check"
+				for b := 1; b < len(in); b++ {
+					switch v := in[b].Interface().(type) {
+					case *Scalar:
+						in[b] = reflect.ValueOf(secp256k1.NewScalar())
+					case []*Scalar:
+						for i := range v {
+							v[i] = secp256k1.NewScalar()
+						}
+					}
+				}
+			}
 			return lib.Try(func() { m.Func.Call(in) }) != ""
 		}
 		// baseline: all operands valid => no panic
@@ -699,6 +729,33 @@ func uninitMatrix() {
 			R.Fail("uninit/"+m.Name+"/zero-value receiver accepted", "misc", map[string]any{"method": m.Name, "what": "an observer computed on an uninitialised Point instead of panicking"}, nil)
 		}
 		for a := 1; a < mt.NumIn(); a++ {
+			// the same cells again with every scalar operand zero, and with one-element lists
+			zeroScalars = true
+			switch mt.In(a) {
+			case pt:
+				R.T(1)
+				n++
+				if !call(a) {
+					R.Fail(fmt.Sprintf("uninit/%s/arg %d zero-value accepted when the scalar operands are zero", m.Name, a), "misc", map[string]any{"method": m.Name, "arg": a, "what": "uninitialised Point operand did not panic when every scalar operand is zero"}, nil)
+				}
+			case reflect.TypeOf([]*Point(nil)):
+				R.T(1)
+				n++
+				if !call(100 + a) {
+					R.Fail(fmt.Sprintf("uninit/%s/list element zero-value accepted when all scalars are zero", m.Name), "misc", map[string]any{"method": m.Name, "what": "uninitialised Point inside a list did not panic when every scalar is zero"}, nil)
+				}
+			}
+			zeroScalars = false
+			if mt.In(a) == reflect.TypeOf([]*Point(nil)) {
+				R.T(2)
+				n += 2
+				if !call(500 + a) {
+					R.Fail(fmt.Sprintf("uninit/%s/one-element list with a zero-value point accepted", m.Name), "misc", map[string]any{"method": m.Name, "what": "uninitialised Point as the only list element did not panic"}, nil)
+				}
+				if !call(600 + a) {
+					R.Fail(fmt.Sprintf("uninit/%s/one-element list with a zero-value point and a zero scalar accepted", m.Name), "misc", map[string]any{"method": m.Name, "what": "uninitialised Point as the only list element, paired with a zero scalar, did not panic"}, nil)
+				}
+			}
 			switch mt.In(a) {
 			case pt:
 				R.T(1)
